@@ -6,7 +6,11 @@ TECHNIQUE = ('visitor dispatch resolution along the MRO; path-sensitive push/pop
              'decision-table extraction by evaluating the summariser code of check_definitions / ControlFlowState over the COMPLETE finite domain of reaching sets '
              '(16 subsets of {Uninitialized, Unknown, assignment1, assignment2}); partial evaluation of NameNode code generation under the definedness flags; '
              'information-flow (channel) check of the type inferer; partial evaluation of the loop statement nodes\' generate_execution_code (sa/rules/sC14.Emu) and a check of the '
-             'emitted statement sequence of every path (where the loop target is assigned relative to the braces of the emitted C loop)')
+             'emitted statement sequence of every path (where the loop target is assigned relative to the braces of the emitted C loop); '
+             'interpretation of the *source* of the whole definedness analysis (ControlFlowAnalysis handlers, ControlFlow graph construction, initialize / reaching_definitions / map_one, '
+             'check_definitions) by the checker\'s own evaluator (sa/rules/sC21.MiniPy: nothing of the repository is imported or executed) on a finite family of abstract programs built from '
+             'the repository\'s node classes, compared with the collecting semantics of the same programs computed by the checker from the language reference; '
+             'path-sensitive partial evaluation of the NameNode emitters under the two flag valuations bound / maybe-unbound')
 DECIDES = ('C21-ABS: every instantiated node class below a ControlFlowAnalysis handler that only raises (visit_LoopNode, visit_AssignmentNode) dispatches to a specific handler. '
            'C21-V3: in every ControlFlowAnalysis method the pushes/pops on self.flow.loops, self.flow.exceptions, loops[-1].exceptions, self.stack and the in_try_block counter '
            'balance on every normal path (helpers with a uniform effect are summarised at their call sites), and visitor attributes saved to a local / swapped / pushed as a tuple '
@@ -18,14 +22,26 @@ DECIDES = ('C21-ABS: every instantiated node class below a ControlFlowAnalysis h
            'C21-INFER: SimpleAssignmentTypeInferer.infer_types reads a definedness fact (or an entry attribute FlowControl derives from one) before committing a non-object type. '
            'C21-LOOPVAR: the code generators of the for-loop statement nodes (ForFromStatNode in the from_range mode IterationTransform uses for range(), _ForInStatNode) bind the loop target inside '
            'the emitted loop before the body on every path and emit no assignment to it after the loop: a loop that runs zero times leaves the variable exactly as the flow analysis assumes '
-           '(unbound stays unbound), an exhausted loop leaves the last item; the C counter of a range() loop is never re-read from the target.')
-NOT_DECIDED = ('the reaching-definitions fixpoint and the shape of the control-flow graph each handler builds (which blocks are linked) are not decided. '
+           '(unbound stays unbound), an exhausted loop leaves the last item; the C counter of a range() loop is never re-read from the target. '
+           'C21-CFG: on every abstract program of the family (208: straight-line code; if / elif / else; while, for-in and for-from loops with else clauses, break and continue; '
+           'try / except / else; try / finally alone, with return, and with break / continue through it inside loops; nested try statements; match statements with capture patterns and '
+           'guards; boolean operators, conditional expressions and assignment expressions - each child block filled with every behaviour class a handler can observe: falls through / '
+           'jumps, binds / unbinds / reads the variable, may raise in between) the flags the analysis computes satisfy: the name can be unbound when an execution reaches the node => '
+           'cf_maybe_null or cf_is_null is set; the name can be bound => cf_is_null is not set.  Over-approximation (more run-time checks than needed) is never reported. '
+           'C21-NULLSAFE: in every ExprNodes method that consults cf_maybe_null (generate_gotref, NameNode.generate_assignment_code / generate_deletion_code / generate_result_code) a '
+           'NULL-intolerant reference-count primitive (decref, decref_set, decref_clear, gotref) is applied to the variable of a maybe-unbound name only under path conditions under which a '
+           'bound name gets it too, or after an emitted unbound check; path conditions that assume an entry kind ControlFlow.is_tracked does not track (C globals ...) are outside the rule.')
+NOT_DECIDED = ('the reaching-definitions fixpoint and the shape of the control-flow graph each handler builds are decided only through the flags they yield on the C21-CFG family: programs '
+               'outside it (deeper nesting than two compound statements, more than one variable, with statements, comprehension scopes, closures / generators, parallel blocks, class bodies) are '
+               'not decided; scenarios with a `del` inside a try body are evaluated by the pending part C21-CFG-DELTRY only (genuine defect FINDING_1 of session s4-G5). '
                'The design clause "every node class whose code generation uses labels/gotos has a specific handler" was dropped: on today\'s tree 8 label-using classes '
                '(DivNode, SequenceNode, YieldExprNode, BoolBinopResultNode, IfClauseNode, ExceptClauseNode, MatchCaseNode, StarExceptTestSetupNode) are correctly handled by the '
                'generic handler or by their parent\'s handler, so label use is not a necessary condition; only the abstract-handler form (C21-ABS) is exact. '
                'Emission sites that assume a non-NULL variable (decref vs xdecref) are not checked (the C-global branch is legitimately unguarded). '
                'C21-INFER is a necessary channel condition only: it does not decide that the inferer uses the fact correctly.')
-ASSUMPTIONS = ['definedness facts can reach the type inferer only through cf_maybe_null / cf_is_null / Uninitialized or an attribute of a symbol-table entry that FlowControl writes under a test on one of them',
+ASSUMPTIONS = ['C21-CFG: TreeVisitor dispatch is replaced by its contract (visit_<Class> of the first class of the node\'s MRO with a handler; visitchildren walks child_attrs in order); '
+               'symbol table entries are local Python-object variables (is_local, not in a closure); every condition, iteration count and raising point of the abstract programs is nondeterministic',
+               'definedness facts can reach the type inferer only through cf_maybe_null / cf_is_null / Uninitialized or an attribute of a symbol-table entry that FlowControl writes under a test on one of them',
                'is_null implies maybe_null for every node (established by C21-LAT), so the flag combination (maybe_null=False, is_null=True) is not evaluated in C21-DEF']
 EXEMPT = {}
 
@@ -58,6 +74,13 @@ MUTATIONS = [
     ('Cython/Compiler/Nodes.py', 'counter re-synchronisation guard `not from_range and` dropped', 'C21-LOOPVAR ForFromStatNode[from_range]:counter'),
     ('Cython/Compiler/Nodes.py', 'RawCNameExprNode for C targets only `if ... and not from_range`', 'C21-LOOPVAR ForFromStatNode[from_range]:in-loop'),
     ('Cython/Compiler/Nodes.py', '_ForInStatNode: `self.target.generate_assignment_code(self.item, code)` moved behind the closing brace', 'C21-LOOPVAR _ForInStatNode:in-loop + after-loop'),
+    # fourth round (session s4-G5): the complete list with patches is in /verif/mutants/C21/*; classes
+    ('Cython/Compiler/FlowControl.py', 'an edge of the graph dropped / attached to the wrong block in visit_IfStatNode, visit_WhileStatNode, visit_ForInStatNode (back edge, else clause), '
+     'visit_ForFromStatNode, visit_TryExceptStatNode (clause exit), visit_BoolBinopNode, visit_CondExprNode, visit_MatchNode (no case / failing guard)', 'C21-CFG <statement kinds>:unbound-missed / bound-missed'),
+    ('Cython/Compiler/FlowControl.py', 'mark_deletion records the deletion as a definition / visit_DelStatNode does not record it; reaching_definitions: kill applied to the own definitions, '
+     'parents joined with &; check_definitions block walk: a deletion sets the statement bit; initialize: no Uninitialized bits at the entry point', 'C21-CFG'),
+    ('Cython/Compiler/ExprNodes.py', 'generate_assignment_code: decref_set / xdecref_set swapped; generate_deletion_code: decref_clear for a maybe-unbound name; generate_gotref: condition inverted', 'C21-NULLSAFE'),
+    ('Cython/Compiler/FlowControl.py', 'CONSERVATIVE edits (more maybe-unbound states, same behaviour): kill set ignored, if-clauses hung under the entry block, try-entry / finally-entry edge dropped', 'silent (by design)'),
     # repairs of the two findings make the corresponding violation disappear (and it comes back when the repair is reverted)
     ('Cython/Compiler/ExprNodes.py', 'REPAIR generate_deletion_code: emit put_error_if_unbound also under `self.cf_is_null and not ignore_nonexisting`', 'C21-DEF silent'),
     ('Cython/Compiler/TypeInference.py', 'REPAIR inferred_types: append py_object_type when any reference has cf_maybe_null', 'C21-INFER silent'),
@@ -81,4 +104,6 @@ def run(ctx):
     from ..rules import cfgjump
     from ..rules import sC21
     return [pC21.rule_abstract_handlers(ctx), pC21.rule_visitor_state(ctx), pC21.rule_lattice(ctx), pC21.rule_defaults_guards(ctx), pC21.rule_infer(ctx), cfgjump.rule_jump(ctx),
-            sC21.rule_loopvar(ctx)]
+            sC21.rule_loopvar(ctx), sC21.rule_cfg(ctx, 'main', floor=160), sC21.rule_nullsafe(ctx)]
+    # pending finding: sC21.rule_cfg(ctx, 'deltry') -- the same rule on the scenarios with a `del` inside a try body reports a genuine defect of the unmodified tree
+    # (FINDING_1 of session s4-G5: `x = 1; try: del x; f() except E: use(x)` reads NULL); register it as C21-CFG-DELTRY (floor 36) once visit_DelStatNode is repaired.
